@@ -54,8 +54,8 @@ class DeclGen:
         self.p = p_constraint
         self.allow = allow
         self.counter = 0
-        # ext=True adds the extension field kinds (SizedString, IPV4, HostName, DateString, TimeString, JSONString as
-        # `string` declarations with "maxlen" / "fmt"; DecimalNumber as `number` with "dec") to what `decl` draws from;
+        # ext=True adds the extension string kinds (SizedString, IPV4, HostName, DateString, TimeString, JSONString as
+        # `string` declarations with "maxlen" / "fmt") to what `decl` draws from (DecimalNumber has its own stream);
         # with ext=False (the default) every draw is exactly what it was before these kinds existed
         self.ext = ext
 
